@@ -30,6 +30,21 @@ Additional Rust subset (anything else: refused with a message, never guessed)
           `cast_to_u64_slice(&d)` -> concat d (the words of the lines in order; `len * 8` cannot overflow for an
           allocated slice).
 
+Generic element type  a type parameter T bounded by the library's WTIndexable (unsigned primitive integer) is kept
+          symbolic: values of type T are N below 2^w and every function that mentions T takes the width `wT : N`
+          as its first parameter; `x >> s`, `x << s` -> oshr wT / oshl wT, `& | ^`, comparisons as for uN,
+          `T::zero()` -> 0, `x.as_()` on T -> x mod 2^64 (AsPrimitive<usize>, the only impl the bounds of the impl
+          blocks give), `x.as_()` on usize -> x mod 2^wT (usize: AsPrimitive<T>), `Self::Item` = T.
+          Other generic parameters by monomorphisation (RS = RSQVector<RSSupportPlain<B>>).
+  Vec<R>  for a struct R with several fields (`qvs: Vec<RS>`): one list per used field of R, all of the same
+          length (`qvs_qv_data`, `qvs_n_occs_smaller`, ..); `self.qvs[i].m(..)` reads each list at i (Fault Panic
+          out of range) and calls m on those fields.
+  more    `e?` on an Option in a function returning Option (at statement level: `let x = e?;`, `x = .. e? ..;`)
+          -> match e with None => return None | Some v => .. ; local `Vec`s: `Vec::with_capacity(n)` / `Vec::new()`
+          -> [], `v.push(x);` -> v ++ [x], `v[i]`; `a.checked_add(b)` -> Some (a + b) if below 2^width else None;
+          `for x in (a..b).rev()` -> for_loop_rev; a statement `recv.prefetch_*(args);` evaluates the receiver
+          and the arguments and has no effect (the prefetch intrinsic has no architectural effect).
+
 Loops (Base/Loops.v)
   the variables declared outside a loop and assigned inside it are its state (a tuple, in order of first
   assignment); the body becomes a function from the state to Next s / Brk s / Ret r in the outcome monad;
@@ -58,6 +73,7 @@ HOME = {
     ("src/qvector/rs_qvector.rs", "QVector"): "src/qvector/mod.rs",
     ("src/qvector/rs_qvector.rs", "RSSupportPlain"): "src/qvector/rs_qvector/rs_support_plain.rs",
     ("src/qvector/rs_qvector.rs", "select_in_word_u128"): "src/utils/mod.rs",
+    ("src/quadwt/mod.rs", "RSQVector"): "src/qvector/rs_qvector.rs",
     ("src/darray/mod.rs", "BitVector"): "src/bitvector/mod.rs",
     ("src/darray/mod.rs", "select_in_word"): "src/utils/mod.rs",
 }
@@ -143,6 +159,25 @@ TARGETS = list(GL.TARGETS) + [
     ("src/qvector/rs_qvector.rs", "RSQVector", "rank_block_unchecked", "g_rsq512_rank_block_unchecked", {"S": "RSSupportPlain", "B_SIZE": 512}),
     ("src/qvector/rs_qvector.rs", "RSQVector", "select", "g_rsq512_select", {"S": "RSSupportPlain", "B_SIZE": 512}),
     ("src/qvector/rs_qvector.rs", "RSQVector", "select_unchecked", "g_rsq512_select_unchecked", {"S": "RSSupportPlain", "B_SIZE": 512}),
+    # ---- group qwt: QWaveletTree walks (element width symbolic, RS = RSQVector<RSSupportPlain<B>>)
+    ("src/quadwt/mod.rs", "QWaveletTree", "len", "g_qwt256_len", {"T": "@T", "RS": "RSQVector", "S": "RSSupportPlain", "B_SIZE": 256}),
+    ("src/quadwt/mod.rs", "QWaveletTree", "is_empty", "g_qwt256_is_empty", {"T": "@T", "RS": "RSQVector", "S": "RSSupportPlain", "B_SIZE": 256}),
+    ("src/quadwt/mod.rs", "QWaveletTree", "n_levels", "g_qwt256_n_levels", {"T": "@T", "RS": "RSQVector", "S": "RSSupportPlain", "B_SIZE": 256}),
+    ("src/quadwt/mod.rs", "QWaveletTree", "get_unchecked", "g_qwt256_get_unchecked", {"T": "@T", "RS": "RSQVector", "S": "RSSupportPlain", "B_SIZE": 256}),
+    ("src/quadwt/mod.rs", "QWaveletTree", "get", "g_qwt256_get", {"T": "@T", "RS": "RSQVector", "S": "RSSupportPlain", "B_SIZE": 256}),
+    ("src/quadwt/mod.rs", "QWaveletTree", "rank_unchecked", "g_qwt256_rank_unchecked", {"T": "@T", "RS": "RSQVector", "S": "RSSupportPlain", "B_SIZE": 256}),
+    ("src/quadwt/mod.rs", "QWaveletTree", "rank", "g_qwt256_rank", {"T": "@T", "RS": "RSQVector", "S": "RSSupportPlain", "B_SIZE": 256}),
+    ("src/quadwt/mod.rs", "QWaveletTree", "select", "g_qwt256_select", {"T": "@T", "RS": "RSQVector", "S": "RSSupportPlain", "B_SIZE": 256}),
+    ("src/quadwt/mod.rs", "QWaveletTree", "select_unchecked", "g_qwt256_select_unchecked", {"T": "@T", "RS": "RSQVector", "S": "RSSupportPlain", "B_SIZE": 256}),
+    ("src/quadwt/mod.rs", "QWaveletTree", "len", "g_qwt512_len", {"T": "@T", "RS": "RSQVector", "S": "RSSupportPlain", "B_SIZE": 512}),
+    ("src/quadwt/mod.rs", "QWaveletTree", "is_empty", "g_qwt512_is_empty", {"T": "@T", "RS": "RSQVector", "S": "RSSupportPlain", "B_SIZE": 512}),
+    ("src/quadwt/mod.rs", "QWaveletTree", "n_levels", "g_qwt512_n_levels", {"T": "@T", "RS": "RSQVector", "S": "RSSupportPlain", "B_SIZE": 512}),
+    ("src/quadwt/mod.rs", "QWaveletTree", "get_unchecked", "g_qwt512_get_unchecked", {"T": "@T", "RS": "RSQVector", "S": "RSSupportPlain", "B_SIZE": 512}),
+    ("src/quadwt/mod.rs", "QWaveletTree", "get", "g_qwt512_get", {"T": "@T", "RS": "RSQVector", "S": "RSSupportPlain", "B_SIZE": 512}),
+    ("src/quadwt/mod.rs", "QWaveletTree", "rank_unchecked", "g_qwt512_rank_unchecked", {"T": "@T", "RS": "RSQVector", "S": "RSSupportPlain", "B_SIZE": 512}),
+    ("src/quadwt/mod.rs", "QWaveletTree", "rank", "g_qwt512_rank", {"T": "@T", "RS": "RSQVector", "S": "RSSupportPlain", "B_SIZE": 512}),
+    ("src/quadwt/mod.rs", "QWaveletTree", "select", "g_qwt512_select", {"T": "@T", "RS": "RSQVector", "S": "RSSupportPlain", "B_SIZE": 512}),
+    ("src/quadwt/mod.rs", "QWaveletTree", "select_unchecked", "g_qwt512_select_unchecked", {"T": "@T", "RS": "RSQVector", "S": "RSSupportPlain", "B_SIZE": 512}),
 ]
 
 # group -> (source file, owner types or None, first index in TARGETS that belongs to T5)
@@ -154,6 +189,7 @@ GROUPS = {
     "rss": ("src/qvector/rs_qvector/rs_support_plain.rs", None),
     "rsq": ("src/qvector/rs_qvector.rs", None),
     "qv2": ("src/qvector/mod.rs", None),
+    "qwt": ("src/quadwt/mod.rs", None),
 }
 # which generated files a group's file must import (T3 leaves and earlier T5 groups)
 GROUP_IMPORTS = {
@@ -162,12 +198,13 @@ GROUP_IMPORTS = {
     "rsw2": ["LeavesUtils", "LeavesRSW", "FnsBv"],
     "rss": ["LeavesSB"],
     "qv2": ["LeavesLine", "LeavesQV"],
+    "qwt": ["FnsRsq"],
     "rsq": ["LeavesUtils", "LeavesSB", "LeavesLine", "LeavesQV", "FnsRss", "FnsQv2"],
 }
 
 GL.RESERVED |= set("""while_loop for_loop iter_loop Next Brk Ret Done Retd len concat ounwrap wshl wshr fsqrt fuel Some
-    None option step fin r s v zwrap ziadd zisub zshamt Z left right inl inr pair fst snd S O nil cons xH xO xI N0 Npos
-    Z0 Zpos Zneg eq_refl conj I opt_ltb nthN""".split())
+    None option step fin r s v zwrap ziadd zisub zimul zshamt Z left right inl inr pair fst snd S O nil cons xH xO xI N0 Npos
+    Z0 Zpos Zneg eq_refl conj I opt_ltb nthN wT for_loop_rev checked_add""".split())
 
 
 # ------------------------------------------------------------------------------ item index with trait info
@@ -351,6 +388,9 @@ class Parser5(Parser):
             if name == "f64":
                 self.i += 1
                 return "f64"
+            if name == "Self" and self.at("::", 1) and self.at("Item", 2):
+                self.i += 3
+                return ("struct", "T")
             if name[:1].isupper() and name not in ("Self",):
                 self.i += 1
                 if self.at("<"):
@@ -419,14 +459,29 @@ class Parser5(Parser):
                 self.accept("mut")
                 x = self.ident()
                 self.expect("in")
-                lo = self.expr_nostruct()
-                incl = False
-                if self.accept("..="):
-                    incl = True
-                else:
+                rev = False
+                if self.at("("):
+                    # (lo..hi).rev()
+                    self.expect("(")
+                    lo = self.expr_nostruct()
                     self.expect("..")
-                hi = self.expr_nostruct()
-                stmts.append(("for", x, lo, hi, incl, self.loop_body()))
+                    hi = self.expr_nostruct()
+                    self.expect(")")
+                    self.expect(".")
+                    if self.ident() != "rev":
+                        self.fail("range adaptor (only `.rev()`)")
+                    self.expect("(")
+                    self.expect(")")
+                    rev, incl = True, False
+                else:
+                    lo = self.expr_nostruct()
+                    incl = False
+                    if self.accept("..="):
+                        incl = True
+                    else:
+                        self.expect("..")
+                    hi = self.expr_nostruct()
+                stmts.append(("for", x, lo, hi, incl, self.loop_body()) + ((True,) if rev else ()))
                 self.accept(";")
             elif self.accept("break"):
                 self.expect(";")
@@ -485,6 +540,9 @@ class Parser5(Parser):
                 elif e[0] in ("if", "block"):
                     self.accept(";")
                     stmts.append(("expr", e))
+                elif e[0] == "mcall" and self.at(";"):
+                    self.i += 1
+                    stmts.append(("call", e))
                 else:
                     self.fail("expression statement")
         return ("block", stmts, tail)
@@ -537,8 +595,8 @@ class Parser5(Parser):
             elif self.accept("["):
                 e = ("index", e, self.expr())
                 self.expect("]")
-            elif self.at("?"):
-                self.fail("`?`")
+            elif self.accept("?"):
+                e = ("try", e)
             else:
                 return e
 
@@ -552,7 +610,7 @@ class World:
     """all units and the signatures of the functions translated so far"""
 
     def __init__(self, repo):
-        self.repo, self.units, self.sigs = repo, {}, {}
+        self.repo, self.units, self.sigs, self.monosigs = repo, {}, {}, {}
 
     def unit(self, rel):
         if rel not in self.units:
@@ -581,6 +639,8 @@ class FnT5(FnTranslator):
         self.sigs = world.sigs
         self.sigs_coq = {s.coq for s in self.sigs.values()}
         self.subst = {}
+        self.full_subst = dict(subst)
+        self.needs_w = False
         self.tsubst = {k: v for k, v in subst.items() if isinstance(v, str)}
         self.monos = [tuple(sorted(subst.items(), key=str)), tuple(sorted((k, v) for k, v in subst.items() if not isinstance(v, str)))]
         self.nominal = {}
@@ -641,7 +701,8 @@ class FnT5(FnTranslator):
         """generic type parameters replaced by the types of the monomorphisation"""
         if isinstance(t, tuple):
             if t[0] == "struct" and t[1] in self.tsubst:
-                return ("struct", self.tsubst[t[1]])
+                v = self.tsubst[t[1]]
+                return v if v.startswith("@") else ("struct", v)
             if t[0] in ("array", "slice", "option"):
                 return (t[0], self.sub_t(t[1])) + tuple(t[2:])
             if t[0] == "tuple":
@@ -672,10 +733,22 @@ class FnT5(FnTranslator):
         out = []
         u, fl = self.fields_of(t[1], unit.rel)
         for fname, fty in fl:
-            if isinstance(fty, tuple) and fty[0] == "struct" and self.is_record(fty, u.rel):
+            try:
+                rec = isinstance(fty, tuple) and fty[0] == "struct" and self.is_record(fty, u.rel)
+            except Unsupported:
+                out.append((prefix + (fname,), ("opaque", fname)))
+                continue
+            if rec:
                 out += self.leaf_paths(fty, u, prefix + (fname,))
+            elif is_list(fty) and isinstance(fty[1], tuple) and fty[1][0] == "struct" and self.is_record(fty[1], u.rel):
+                # a slice of structs with several fields: one list per field of the struct
+                out += [(pp, ("slice", tt)) for pp, tt in self.leaf_paths(fty[1], u, prefix + (fname,))]
             else:
-                out.append((prefix + (fname,), self.norm(fty, u.rel)))
+                try:
+                    nt = self.norm(fty, u.rel)
+                except Unsupported:
+                    nt = ("opaque", fname)      # a field of a type outside the subset: may exist, must not be used
+                out.append((prefix + (fname,), nt))
         return out
 
     def norm(self, t, rel):
@@ -724,6 +797,10 @@ class FnT5(FnTranslator):
                     path.append(names[k])
             t, rel = ft, u.rel
             k += 1
+            if is_list(t) and isinstance(t[1], tuple) and t[1][0] == "struct" and self.is_record(t[1], rel):
+                if k != len(names):
+                    self.fail("field of a slice of structs")
+                return ("soa", tuple(path), t[1][1], self.struct_unit(t[1][1], rel).rel)
             if not (isinstance(t, tuple) and t[0] == "struct" and self.is_record(t, rel)):
                 # leaf reached: the remaining names project inside one-field structs (identity)
                 ty = self.norm(t, rel)
@@ -757,6 +834,25 @@ class FnT5(FnTranslator):
                     for a in e[3]:
                         self.scan_paths(a, used)
                     return
+            soa = self.soa_recv(recv)
+            if soa is not None:
+                r, ix = soa
+                if e[2].startswith("prefetch"):
+                    first = self.leaf_paths(("struct", r[2]), self.world.unit(r[3]), r[1])[0][0]
+                    if first not in used:
+                        used.append(first)
+                else:
+                    sig = self.method_sig(r[2], r[3], e[2])
+                    for p in sig.fields:
+                        p = (p,) if isinstance(p, str) else tuple(p)
+                        if r[1] + p not in used:
+                            used.append(r[1] + p)
+                    if getattr(sig, "fuel", False):
+                        self.needs_fuel = True
+                self.scan_paths(ix, used)
+                for a in e[3]:
+                    self.scan_paths(a, used)
+                return
         if isinstance(e, tuple) and e and e[0] == "field":
             names = self.chain(e)
             if names is not None:
@@ -769,15 +865,36 @@ class FnT5(FnTranslator):
         for x in e:
             self.scan_paths(x, used)
 
+    def soa_recv(self, recv):
+        """recv = self.f..[ix] with f.. a slice of several-field structs: (('soa', path, struct, rel), ix)"""
+        while recv[0] == "ref" or (recv[0] == "un" and recv[1] == "*"):
+            recv = recv[1] if recv[0] == "ref" else recv[2]
+        if recv[0] == "index":
+            names = self.chain(recv[1])
+            if names:
+                r = self.resolve_chain(names)
+                if r[0] == "soa":
+                    return r, recv[2]
+        return None
+
+    def find_sig(self, key):
+        """the signature registered for key whose monomorphisation is compatible with (contained in) ours"""
+        best = None
+        for sub, sig in self.world.monosigs.get(key, []):
+            if all(self.full_subst.get(k) == v for k, v in sub.items()):
+                if best is None or len(sub) > len(best[0]):
+                    best = (sub, sig)
+        if best:
+            return best[1]
+        return self.sigs.get(key)
+
     def method_sig(self, sname, rel, m):
         u = self.struct_unit(sname, rel)
         key = (u.rel, sname, m)
-        for mo in self.monos:
-            if mo and key + (mo,) in self.sigs:
-                return self.sigs[key + (mo,)]
-        if key not in self.sigs:
+        sig = self.find_sig(key)
+        if sig is None:
             self.fail("call to `%s::%s` (not a translated function)" % (sname, m))
-        return self.sigs[key]
+        return sig
 
     # ---- typing
     def ty(self, e, exp, env):
@@ -834,6 +951,31 @@ class FnT5(FnTranslator):
             return "f64"
         if k == "cast" and self.sqrt_pattern(e):
             return e[2]
+        if k == "try":
+            ot = self.ty(e[1], None, env)
+            if not (isinstance(ot, tuple) and ot[0] == "option"):
+                self.fail("`?` on a value of type %s" % (ot,))
+            return ot[1]
+        if k == "call" and len(e[1]) == 2 and self.tsubst.get(e[1][0]) == "@T" and e[1][1] in ("zero", "one") and not e[3]:
+            return "@T"
+        if k == "call" and e[1] in (["Vec", "with_capacity"], ["Vec", "new"]):
+            return exp if is_list(exp) else ("slice", "?")
+        if k == "lit" and exp == "@T":
+            return None
+        if k == "mcall" and e[2] == "as_" and not e[3]:
+            rt = self.ty(e[1], None, env)
+            if rt == "@T":
+                return "usize"
+            if rt in INT:
+                return "@T"
+            self.fail("`.as_()` on %s" % (rt,))
+        if k == "mcall" and e[2] == "checked_add" and len(e[3]) == 1:
+            rt = self.ty(e[1], None, env)
+            if rt in INT:
+                return ("option", rt)
+        if k == "mcall" and self.soa_recv(e[1]) is not None:
+            r, _ = self.soa_recv(e[1])
+            return self.norm_ret(self.method_sig(r[2], r[3], e[2]))
         if k == "mcall":
             m = e[2]
             if m in ("count_ones", "leading_zeros", "wrapping_mul", "wrapping_add", "wrapping_sub"):
@@ -919,7 +1061,7 @@ class FnT5(FnTranslator):
                     if name in names:
                         return
                     try:
-                        self.let_types(s, env, lambda a, b: env.__setitem__(a, (a, b, -1)), None)
+                        self.let_types(s, env, lambda a, b: env.__setitem__(a, (a, b, -1)), (stmts[n + 1:], None, None))
                     except Unsupported:
                         for a in names:
                             env.pop(a, None)
@@ -930,11 +1072,20 @@ class FnT5(FnTranslator):
                             found.append(t)
                             return
                     expr(s[3], env)
+                elif s[0] == "call":
+                    if s[1][2] == "push" and s[1][1] == ("var", name) and len(s[1][3]) == 1:
+                        t = tyq(s[1][3][0], env)
+                        if t is not None:
+                            found.append(("slice", t))
+                            return
+                    expr(s[1][3], env)
                 elif s[0] == "while":
                     expr(s[1], env)
                     walk(s[2][1], dict(env))
                 elif s[0] == "for":
                     e2 = dict(env)
+                    expr(s[2], env)
+                    expr(s[3], env)
                     t = tyq(s[2], env) or tyq(s[3], env) or self.infer_index_var(s[1], s[5])
                     if t:
                         e2[s[1]] = (s[1], t, -1)
@@ -945,6 +1096,17 @@ class FnT5(FnTranslator):
         env.pop(name, None)
         walk(stmts, env)
         return found[0] if found else None
+
+    def let_types(self, s, env, bind, rest=None):
+        _, pat, ann, init = s
+        if ann is None and init is not None and init[0] == "call" and init[1] in (["Vec", "with_capacity"], ["Vec", "new"]) \
+                and isinstance(pat, str) and rest is not None:
+            t = self.later_type(pat, rest, env)
+            if not is_list(t):
+                self.fail("element type of the Vec `%s` (no push found)" % pat)
+            bind(pat, t)
+            return t
+        return super().let_types(s, env, bind, rest)
 
     def norm_ret(self, sig):
         return self.norm(sig.ret, getattr(sig, "rel", self.unit.rel)) if isinstance(sig.ret, tuple) else sig.ret
@@ -1023,12 +1185,10 @@ class FnT5(FnTranslator):
             key = (u.rel if u else self.unit.rel, owner, segs[1])
         else:
             self.fail("call `%s`" % "::".join(segs))
-        for mo in self.monos:
-            if mo and key + (mo,) in self.sigs:
-                return self.sigs[key + (mo,)]
-        if key not in self.sigs:
+        sig = self.find_sig(key)
+        if sig is None:
             self.fail("call to `%s` (not a translated function)" % "::".join(segs))
-        return self.sigs[key]
+        return sig
 
     # ---- expressions
     def emit(self, e, exp, cx):
@@ -1052,6 +1212,38 @@ class FnT5(FnTranslator):
             self.fail("cast from %s to %s" % (src, e[2]))
         if k == "ref" or (k == "un" and e[1] == "*"):
             return self.emit(e[1] if k == "ref" else e[2], exp, cx)
+        if k == "try":
+            if cx is not getattr(self, "stmt_cx", None):
+                self.fail("`?` inside a nested expression block")
+            ot = self.ty(e[1], None, env)
+            if not (isinstance(ot, tuple) and ot[0] == "option"):
+                self.fail("`?` on a value of type %s" % (ot,))
+            v = self.val(e[1], None, cx)
+            t = self.fresh()
+            cx.lines.append("TRY %s := %s" % (t, v))
+            return t, True
+        if k == "call" and len(e[1]) == 2 and self.tsubst.get(e[1][0]) == "@T" and e[1][1] in ("zero", "one") and not e[3]:
+            return ("0" if e[1][1] == "zero" else "1"), True
+        if k == "call" and e[1] in (["Vec", "with_capacity"], ["Vec", "new"]):
+            for a in e[3]:
+                self.need(a, "usize", env, "usize")
+                self.val(a, "usize", cx)
+            return "[]", True
+        if k == "mcall" and e[2] == "as_" and not e[3]:
+            rt = self.ty(e[1], None, env)
+            a = self.val(e[1], None, cx)
+            if rt == "@T":
+                return "%s mod 2 ^ 64" % paren(a), True
+            self.needs_w = True
+            return "%s mod 2 ^ wT" % paren(a), True
+        if k == "mcall" and e[2] == "checked_add" and len(e[3]) == 1 and self.ty(e[1], None, env) in INT:
+            rt = self.ty(e[1], None, env)
+            self.need(e[3][0], rt, env, rt)
+            a, b = self.val(e[1], rt, cx), self.val(e[3][0], rt, cx)
+            return app("checked_add", str(INT[rt]), a, b), True
+        if k == "mcall" and self.soa_recv(e[1]) is not None:
+            r, _ = self.soa_recv(e[1])
+            return self.emit_call5(self.method_sig(r[2], r[3], e[2]), e[1], e[3], cx)
         if k == "var" and e[1] == "None" and e[1] not in env:
             if self.ty(e, exp, env) is None:
                 self.fail("`None` whose type is not determined by its context")
@@ -1176,11 +1368,22 @@ class FnT5(FnTranslator):
             r = None
             if names is not None:
                 r = self.resolve_chain(names) if names else ("record", (), self.owner, self.unit.rel)
+            soa = self.soa_recv(recv) if recv is not None else None
             if r is not None and r[0] == "record":
                 for p in fields:
                     if r[1] + p not in self.path_coq:
                         self.fail("internal: path %s not collected" % (r[1] + p,))
                     fargs.append(self.path_coq[r[1] + p])
+            elif soa is not None:
+                rr, ix = soa
+                self.need(ix, "usize", cx.env, "usize")
+                iv = self.val(ix, "usize", cx)
+                for p in fields:
+                    if rr[1] + p not in self.path_coq:
+                        self.fail("internal: path %s not collected" % (rr[1] + p,))
+                    t = self.fresh()
+                    cx.lines.append("let! %s := %s in" % (t, app("idx", self.path_coq[rr[1] + p], iv)))
+                    fargs.append(t)
             else:
                 if len(fields) != 1 or len(fields[0]) != 1:
                     self.fail("call of %s on a value (the callee uses several fields)" % sig.coq)
@@ -1191,6 +1394,9 @@ class FnT5(FnTranslator):
             pt = self.norm(pt, rel) if isinstance(pt, tuple) else pt
             self.need(a, pt, cx.env, pt)
             vs.append(self.val(a, pt, cx))
+        if getattr(sig, "wparam", False):
+            self.needs_w = True
+            fargs = ["wT"] + fargs
         if getattr(sig, "fuel", False):
             self.needs_fuel = True
             fargs = ["fuel"] + fargs
@@ -1199,7 +1405,31 @@ class FnT5(FnTranslator):
     def emit_bin(self, e, exp, cx):
         _, op, A, B = e
         env = cx.env
-        if op in GL.CMP or op in ("+", "-"):
+        tA = None
+        try:
+            tA = self.ty(A, None, env)
+        except Unsupported:
+            tA = None
+        if tA == "@T" or (op not in ("<<", ">>") and self.ty(B, None, env) == "@T"):
+            self.needs_w = True
+            if op in ("<<", ">>"):
+                a = self.val(A, "@T", cx)
+                if B[0] == "lit":
+                    b = B[3]
+                else:
+                    self.need(B, "usize", env, "usize")
+                    b = self.val(B, "usize", cx)
+                return app("oshr" if op == ">>" else "oshl", "wT", a, b), False
+            self.need(A, "@T", env, "@T"), self.need(B, "@T", env, "@T")
+            a, b = self.val(A, "@T", cx), self.val(B, "@T", cx)
+            if op in ("&", "|", "^"):
+                return app({"&": "N.land", "|": "N.lor", "^": "N.lxor"}[op], a, b), True
+            if op in GL.CMP:
+                s_ = {"==": app("N.eqb", a, b), "!=": app("N.eqb", a, b), "<": app("N.ltb", a, b), "<=": app("N.leb", a, b),
+                      ">": app("N.ltb", b, a), ">=": app("N.leb", b, a)}[op]
+                return (app("negb", s_) if op == "!=" else s_), True
+            self.fail("operator `%s` on the generic element type" % op)
+        if op in GL.CMP or op in ("+", "-", "*"):
             t = self.ty(A, None, env) or self.ty(B, None, env)
             if op in ("<", ">") and isinstance(t, tuple) and t[0] == "option" and t[1] in INT:
                 self.need(A, t, env, t), self.need(B, t, env, t)
@@ -1212,7 +1442,7 @@ class FnT5(FnTranslator):
                     s_ = {"==": app("Z.eqb", a, b), "!=": app("Z.eqb", a, b), "<": app("Z.ltb", a, b), "<=": app("Z.leb", a, b),
                           ">": app("Z.ltb", b, a), ">=": app("Z.leb", b, a)}[op]
                     return (app("negb", s_) if op == "!=" else s_), True
-                return app("ziadd" if op == "+" else "zisub", str(SINT[t]), a, b), False
+                return app({"+": "ziadd", "-": "zisub", "*": "zimul"}[op], str(SINT[t]), a, b), False
         if op in ("<<", ">>") and B[0] != "lit":
             tb = None
             try:
@@ -1298,6 +1528,12 @@ class FnT5(FnTranslator):
                     expr(s[3], declared)
                 elif s[0] == "expr":
                     expr(s[1], declared)
+                elif s[0] == "call":
+                    if s[1][2] == "push" and s[1][1][0] == "var":
+                        n = s[1][1][1]
+                        if n not in declared and n in env and n not in out:
+                            out.append(n)
+                    expr(s[1][3], declared)
                 elif s[0] == "while":
                     walk(s[2][1], declared)
                 elif s[0] == "for":
@@ -1335,6 +1571,35 @@ class FnT5(FnTranslator):
         return ("'(%s)" if lam else "(%s)") % ", ".join(names)
 
     def seq(self, stmts, tail, cx, flow):
+        """seq0 + the early returns of `?`: everything after a `TRY t := e` marker goes into the Some arm"""
+        saved = getattr(self, "stmt_cx", None)
+        self.stmt_cx = cx
+        try:
+            lines = self.seq0(stmts, tail, cx, flow)
+        finally:
+            self.stmt_cx = saved
+        out = []
+        closers = 0
+        flat = []
+        for ln in lines:
+            flat.append(ln)
+        res, depth = [], 0
+        for ln in flat:
+            if ln.startswith("TRY "):
+                t, v = ln[4:].split(" := ", 1)
+                none = flow.none_ret(self)
+                res.append("  " * depth + "match %s with" % v)
+                res.append("  " * depth + "| None => %s" % none)
+                res.append("  " * depth + "| Some %s =>" % t)
+                depth += 1
+            else:
+                res += ["  " * depth + l for l in ln.split("\n")]
+        while depth > 0:
+            depth -= 1
+            res.append("  " * depth + "end")
+        return res
+
+    def seq0(self, stmts, tail, cx, flow):
         """lines of the outcome-typed term for the statements followed by the end of the block in `flow`"""
         L = cx.lines
         for n, s in enumerate(stmts):
@@ -1403,6 +1668,8 @@ class FnT5(FnTranslator):
                 if self.may_leave(th) or (el is not None and self.may_leave(el)):
                     self.fail("`if` statement that leaves (return/break) on some paths only")
                 self.cond_assign5(s[1], cx)
+            elif k == "call":
+                self.call_stmt(s[1], cx)
             elif k == "expr" and s[1][0] == "block":
                 if self.may_leave(s[1]):
                     self.fail("nested block that leaves")
@@ -1410,6 +1677,36 @@ class FnT5(FnTranslator):
             else:
                 self.fail("statement `%s`" % k)
         return L + flow.end(self, tail, cx)
+
+    def call_stmt(self, e, cx):
+        """`v.push(x);` on a local Vec, `recv.prefetch_*(args);` (no effect)"""
+        _, recv, m, args = e
+        if m == "push" and recv[0] == "var" and recv[1] in cx.env and is_list(cx.env[recv[1]][1]) and len(args) == 1:
+            coq, t, depth = cx.env[recv[1]]
+            if depth != cx.depth:
+                self.fail("push to `%s` from a nested block" % recv[1])
+            et = t[1]
+            if et == "?":
+                self.fail("element type of the Vec `%s`" % recv[1])
+            self.need(args[0], et, cx.env, et)
+            v = self.val(args[0], et, cx)
+            cx.lines.append("let %s := %s ++ [%s] in" % (coq, coq, v))
+            return
+        if m.startswith("prefetch"):
+            soa = self.soa_recv(recv)
+            if soa is not None:
+                r, ix = soa
+                self.need(ix, "usize", cx.env, "usize")
+                iv = self.val(ix, "usize", cx)
+                first = self.leaf_paths(("struct", r[2]), self.world.unit(r[3]), r[1])[0][0]
+                cx.lines.append("let! _ := %s in" % app("idx", self.path_coq[first], iv))
+            elif self.chain(recv) is None:
+                self.fail("receiver of `.%s()`" % m)
+            for a in args:
+                t = self.need(a, None, cx.env)
+                self.val(a, t, cx)
+            return
+        self.fail("expression statement `.%s(..)`" % m)
 
     def subcx(self, cx):
         """context of a block after which nothing of the enclosing block runs: every variable may be assigned"""
@@ -1507,7 +1804,8 @@ class FnT5(FnTranslator):
             head = ["let! r := while_loop (fun %s =>" % lam] + ["    " + l for a in clines for l in a.split("\n")] + ["  ) (fun %s =>" % lam]
             bcx = Cx(self, cx.env, cx.depth + 1)
         else:
-            _, x, lo, hi, incl, _ = s
+            x, lo, hi, incl = s[1], s[2], s[3], s[4]
+            rev = len(s) > 6 and s[6]
             t = self.ty(lo, None, cx.env) or self.ty(hi, None, cx.env) or self.infer_index_var(x, body) \
                 or self.later_type(x, (body[1], None, None), cx.env)
             if t not in INT:
@@ -1527,6 +1825,9 @@ class FnT5(FnTranslator):
         init = self.tuple_pat(names)
         if s[0] == "while":
             close = "  ) fuel %s in" % init
+        elif rev:
+            head[0] = head[0].replace("for_loop ", "for_loop_rev ", 1)
+            close = "  ) %s (N.to_nat (%s - %s)) %s in" % (paren(hiv), paren(hiv), paren(lov), init)
         else:
             close = "  ) %s (N.to_nat (%s - %s)) %s in" % (paren(lov), paren(hiv), paren(lov), init)
         out = L + head + ["    " + l for a in blines for l in a.split("\n")] + [close]
@@ -1563,14 +1864,16 @@ class FnT5(FnTranslator):
         rett = self.norm(self.ret, self.unit.rel) if isinstance(self.ret, tuple) else self.ret
         self.ret = rett
         lines = self.seq(self.body[1], self.body[2], cx, FnFlow(rett))
-        binders = (["(fuel : nat)"] if self.needs_fuel else []) + \
+        if "@T" in repr(ptys) or "@T" in repr(rett) or any("@T" in repr(self.path_ty[p]) for p in self.paths):
+            self.needs_w = True
+        binders = (["(fuel : nat)"] if self.needs_fuel else []) + (["(wT : N)"] if self.needs_w else []) + \
             ["(%s : %s)" % (self.path_coq[p], coq_type5(self.path_ty[p])) for p in self.paths] + \
             ["(%s : %s)" % (n, coq_type5(t)) for n, t in zip(names, ptys)]
         out = ["(* %s: %s%s *)" % (self.unit.rel, self.header, "   with " + ", ".join("%s = %s" % kv for kv in self.cparams.items()) if self.cparams else ""),
                "Definition %s %s : outcome %s :=" % (self.coq, " ".join(binders), paren(coq_type5(rett)))]
         text = "\n".join("  " + l for ln in lines for l in ln.split("\n"))
         sig = Sig(self.coq, self.selfkind, list(zip([p for p, _ in self.params], ptys)), rett, list(self.paths))
-        sig.fuel, sig.rel = self.needs_fuel, self.unit.rel
+        sig.fuel, sig.rel, sig.wparam = self.needs_fuel, self.unit.rel, self.needs_w
         return "\n".join(out) + "\n" + text + ".\n", sig
 
 
@@ -1595,6 +1898,11 @@ class FnFlow:
 
     def retd(self, v):
         return "Val " + v
+
+    def none_ret(self, tr):
+        if not (isinstance(self.exp, tuple) and self.exp[0] == "option"):
+            tr.fail("`?` in a function that does not return an Option")
+        return "Val None"
 
 
 class LoopFlow:
@@ -1629,6 +1937,10 @@ class LoopFlow:
             return "Val " + v
         return "Val (Ret %s)" % v
 
+    def none_ret(self, tr):
+        self.fnflow.none_ret(tr)
+        return "Val (Ret None)"
+
 
 class ValFlow:
     """end of a block used as a value"""
@@ -1652,6 +1964,9 @@ class ValFlow:
     def retd(self, v):
         raise Unsupported("loop with `return` inside a block used as a value")
 
+    def none_ret(self, tr):
+        tr.fail("`?` inside a block used as a value")
+
 
 class EndFlow:
     """end of a conditional-assignment arm: the values of the assigned variables"""
@@ -1671,9 +1986,12 @@ class EndFlow:
     def retd(self, v):
         raise Unsupported("loop with `return` inside a conditional assignment")
 
+    def none_ret(self, tr):
+        tr.fail("`?` inside a conditional assignment")
+
 
 def coq_type5(t):
-    if t in INT:
+    if t in INT or t == "@T":
         return "N"
     if t in SINT:
         return "Z"
@@ -1729,8 +2047,9 @@ def generate(repo, group, count=None):
             raise Unsupported("%s: fn %s: unsupported construct (internal translator error: %r)" % (rel, fname, e))
         key = (rel, owner, fname.split("::")[-1])
         if subst:
-            key = key + (tuple(sorted(subst.items(), key=str)),)
-        world.sigs.setdefault(key, sig)
+            world.monosigs.setdefault(key, []).append((dict(subst), sig))
+        else:
+            world.sigs.setdefault(key, sig)
         if rel == rel_g and (owners_g is None or owner in owners_g):
             count[0] += 1
             out.append(text)
